@@ -147,7 +147,7 @@ def build_and_audit(pid, log):
     t0 = time.time()
     # fast path: nothing to rebuild (read-only check under the shared lock, so concurrent checks do not serialise)
     with lean_lock(shared=True):
-        rc0, _ = run(["lake", "build", "--no-build", f"BnpVerif.Props.{pid}", "driver"])
+        rc0, _ = run(["lake", "build", "--no-build", f"BnpVerif.Props.{pid}", f"driver_{pid}"])
     if rc0 == 0:
         res["build_ok"] = True
         res["driver_ok"] = True
@@ -164,7 +164,7 @@ def build_and_audit(pid, log):
                         res["broken"].append(name)
                 if not res["broken"]:
                     res["broken"].append(f"lake build BnpVerif.Props.{pid} failed")
-            rc2, out2 = run(["lake", "build", "driver"])
+            rc2, out2 = run(["lake", "build", f"driver_{pid}"])
             res["driver_ok"] = rc2 == 0
             if rc2 != 0:
                 res["driver_output"] = out2[-4000:]
@@ -190,17 +190,17 @@ def build_and_audit(pid, log):
     return res
 
 
-def driver_run(lines):
+def driver_run(lines, pid):
     """send JSON lines to the compiled Lean driver, return list of parsed replies"""
     if not lines:
         return []
-    exe = LEAN / ".lake" / "build" / "bin" / "driver"
+    exe = LEAN / ".lake" / "build" / "bin" / f"driver_{pid}"
     payload = "\n".join(lines) + "\n"
     with lean_lock(shared=True):
         if exe.exists():
             p = subprocess.run([str(exe)], input=payload, capture_output=True, text=True, timeout=3000)
         else:
-            p = subprocess.run(["lake", "env", "lean", "--run", "Driver.lean"], cwd=LEAN, input=payload,
+            p = subprocess.run(["lake", "env", "lean", "--run", f"Drivers/{pid}.lean"], cwd=LEAN, input=payload,
                                capture_output=True, text=True, timeout=3000)
     outs = [l for l in p.stdout.splitlines() if l.startswith("{")]
     if len(outs) != len(lines):
@@ -335,7 +335,7 @@ def run_check(mod, tier, seed, replay=None):
                 idx.append(i)
         replies = {}
         if lines:
-            for i, r in zip(idx, driver_run(lines)):
+            for i, r in zip(idx, driver_run(lines, pid)):
                 replies[i] = r
         results = _eval_all(mod, cases)
         for i, c in enumerate(cases):
@@ -363,7 +363,8 @@ def run_check(mod, tier, seed, replay=None):
                 stats["model_compared"] += 1
                 if s is not None:
                     stats["spec_compared"] += 1
-                    if canon(s) != canon(exp):
+                    same = mod.agree_spec(c, s, exp) if hasattr(mod, "agree_spec") else canon(s) == canon(exp)
+                    if not same:
                         model_vs_spec.append({"case": c, "lean_spec": s, "python_oracle": exp})
                 if m is not None and not (mod.agree_model(c, got, m) if hasattr(mod, "agree_model") else canon(got) == canon(m)):
                     corr_breaks.append({"case": c, "impl": got, "model": m, "expected": exp})
